@@ -6,6 +6,7 @@
 #include <unordered_map>
 
 #include "doccase.hpp"
+#include "shapes.hpp"
 
 using namespace vh;
 using ref::Cursor;
@@ -514,50 +515,6 @@ static size_t wrap_raw(const uint8_t *doc, size_t n, unsigned variant, uint8_t *
 // Explicit-state exploration: all trees with <= N nodes, every protocol-legal
 // history (BFS over joint states: parser bytes x reference cursor).
 
-static void forests(unsigned m, std::vector<std::vector<std::string>> &memoF, std::vector<std::vector<std::string>> &memoT);
-
-static const std::vector<std::string> &treesOf(unsigned s, std::vector<std::vector<std::string>> &memoF, std::vector<std::vector<std::string>> &memoT) {
-    if (!memoT[s].empty()) return memoT[s];
-    std::vector<std::string> r;
-    if (s == 1) { r = {"i", "b", "{}", "[]"}; }
-    else {
-        forests(s - 1, memoF, memoT);
-        for (auto &f : memoF[s - 1]) { r.push_back("{" + f + "}"); r.push_back("[" + f + "]"); }
-    }
-    memoT[s] = r;
-    return memoT[s];
-}
-
-static void forests(unsigned m, std::vector<std::vector<std::string>> &memoF, std::vector<std::vector<std::string>> &memoT) {
-    if (!memoF[m].empty()) return;
-    if (m == 0) { memoF[0] = {""}; return; }
-    std::vector<std::string> r;
-    for (unsigned s = 1; s <= m; s++) {
-        const std::vector<std::string> ts = treesOf(s, memoF, memoT);
-        forests(m - s, memoF, memoT);
-        for (auto &t : ts) for (auto &rest : memoF[m - s]) r.push_back(t + rest);
-    }
-    memoF[m] = r;
-}
-
-static size_t parse_shape(const std::string &sh, size_t i, Value &v) {
-    char ch = sh[i];
-    if (ch == 'i') { v.k = ref::K_INT; v.i = 5; return i + 1; }
-    if (ch == 'b') { v.k = ref::K_BOOL; v.b = true; return i + 1; }
-    bool obj = ch == '{';
-    v.k = obj ? K_OBJ : K_ARR;
-    i++;
-    unsigned n = 0;
-    while (sh[i] != '}' && sh[i] != ']') {
-        Value c;
-        i = parse_shape(sh, i, c);
-        if (obj) { c.has_name = true; c.name = Bytes{(uint8_t)('b' + 2 * n)}; }
-        n++;
-        v.c.push_back(std::move(c));
-    }
-    return i + 1;
-}
-
 struct Joint {
     Bytes pbytes, sbytes;  // parser struct and state array snapshot
     Cursor cur;
@@ -579,11 +536,8 @@ static uint64_t joint_key(const Joint &j) {
 static int enumerate(int shard, int nshards, const char *tier) {
     unsigned N = (tier && !strcmp(tier, "thorough")) ? 6 : 5;
     if (const char *e = getenv("VH_ENUM_N")) N = (unsigned)atoi(e);
-    std::vector<std::vector<std::string>> memoF(N + 1), memoT(N + 1);
-    std::vector<std::string> shapes;
-    for (unsigned s = 1; s <= N; s++)
-        for (auto &t : treesOf(s, memoF, memoT))
-            if (t[0] == '{' || t[0] == '[') shapes.push_back(t);
+    Shapes shp(N);
+    std::vector<std::string> shapes = shp.roots(N);
     Stats &st = stats();
     uint64_t states = 0, transitions = 0;
     for (size_t ti = 0; ti < shapes.size(); ti++) {
